@@ -91,6 +91,7 @@ type libOp struct {
 	Writes    []int            `json:"writes,omitempty"`
 	Level     int              `json:"level,omitempty"`
 	Fault     *simos.Fault     `json:"fault,omitempty"`
+	Faults    []simos.Fault    `json:"faults,omitempty"` // an I/O error, optionally followed by a kill
 	PowerLoss *simos.PowerLoss `json:"powerloss,omitempty"`
 	Disk      *diskFault       `json:"disk,omitempty"`
 }
@@ -202,24 +203,33 @@ func (r *libRun) inProc(spec simos.ProcSpec, fn func()) (killed bool, pnc string
 // put runs the real create/write/close protocol. acked is true when every
 // call returned nil.
 func (r *libRun) put(op libOp, fault *simos.Fault, pl *simos.PowerLoss) (acked, killed bool, pnc string, p *simos.Proc) {
+	var fs []simos.Fault
+	if fault != nil {
+		fs = []simos.Fault{*fault}
+	}
+	return r.putFaults(op, fs, pl)
+}
+
+// putFaults runs the create/write/close protocol the way the CLI drives it:
+// an entry whose creation failed is unlinked at once (and still written to),
+// a failed write aborts the run, an aborted run unlinks the entry before
+// closing it, a failed Close unlinks it afterwards.
+func (r *libRun) putFaults(op libOp, faults []simos.Fault, pl *simos.PowerLoss) (acked, killed bool, pnc string, p *simos.Proc) {
 	core.Tick()
 	k := r.keys[op.Key]
 	body := op.Body.bytes()
-	spec := simos.ProcSpec{PowerLoss: pl}
-	if fault != nil {
-		spec.Faults = []simos.Fault{*fault}
-	}
+	spec := simos.ProcSpec{PowerLoss: pl, Faults: faults}
 	killed, pnc, p = r.inProc(spec, func() {
 		f, err := cache.CreateLevel(libCacheDir, r.h, append([]byte(nil), k[0]...), append([]byte(nil), k[1]...), op.Level)
-		if err != nil {
-			if f != nil {
-				f.Close()
-			}
+		if f == nil {
 			return
 		}
-		ok := true
+		ok := err == nil
+		if err != nil {
+			simos.Remove(f.Name())
+		}
 		rest := body
-		for i := 0; len(rest) > 0; i++ {
+		for i := 0; len(rest) > 0 && ok; i++ {
 			n := len(rest)
 			if len(op.Writes) > 0 {
 				c := op.Writes[i%len(op.Writes)]
@@ -235,10 +245,16 @@ func (r *libRun) put(op libOp, fault *simos.Fault, pl *simos.PowerLoss) (acked, 
 			}
 			rest = rest[n:]
 		}
-		if err := f.Close(); err != nil {
-			ok = false
+		if !ok {
+			simos.Remove(f.Name())
+			f.Close()
+			return
 		}
-		acked = ok
+		if err := f.Close(); err != nil {
+			simos.Remove(f.Name())
+			return
+		}
+		acked = true
 	})
 	if killed || pnc != "" {
 		acked = false
@@ -404,7 +420,7 @@ func (r *libRun) doPut(op libOp, mk func() *libScenario) {
 		r.probe("put_not_acked_fault_free")
 		return
 	}
-	if op.Fault == nil && op.PowerLoss == nil {
+	if op.Fault == nil && op.PowerLoss == nil && len(op.Faults) == 0 {
 		r.legit[op.Key] = []legitEntry{{image, body, true}}
 		return
 	}
@@ -414,7 +430,11 @@ func (r *libRun) doPut(op libOp, mk func() *libScenario) {
 	} else {
 		r.w.DeleteFile(path)
 	}
-	_, _, pnc, p2 := r.put(op, op.Fault, op.PowerLoss)
+	fs := op.Faults
+	if op.Fault != nil {
+		fs = append([]simos.Fault{*op.Fault}, fs...)
+	}
+	_, _, pnc, p2 := r.putFaults(op, fs, op.PowerLoss)
 	if pnc != "" {
 		r.violate("panic", panicSite(pnc), firstLine(pnc), mk())
 	}
